@@ -126,7 +126,7 @@ def run(prog, tier, extra=None):
             good |= c["false_edges"]
         elif c["op"] in ("Le",):
             good |= c["true_edges"]
-    PRIV = {"Fee", "SPV", "BlockStake", "ATR", "Issuance"}
+    PRIV = {"Fee", "SPV", "ATR", "Issuance"}      # a staking transaction is a user transaction: it consumes and pays like any other
     exempt, sites = gate.enum_compare_edges(prog, tv, ch, "transaction::TransactionType", "transaction_type", PRIV)
     if not cmps:
         res.add(Finding(R2, "C02.inflation-gate|no-comparison", "Transaction::validate does not compare total_out with total_in", tv.loc(0)))
